@@ -11,6 +11,7 @@ import ast
 from ..core import (AnalysisError, short, unparse, iter_own, call_name, call_recv, kwarg,
                     is_self_attr, atomic_facts, parents, enclosing_stmt, enclosing_func, const_value)
 from .. import tables, symex
+from . import gcommon
 
 MATH = 'pylatexenc.latexnodes.parsers._math'
 DELTA = 'pylatexenc.latexnodes._parsingstatedelta'
@@ -630,6 +631,11 @@ def run(ctx):
     ctx.rule('R10j', 'a chain of parsing-state deltas is applied to the running state, step by step', 1)
     _delta_chain_threading(ctx, repo)
 
+    # ---- R10k
+    ctx.rule('R10k', 'a parsing-state delta applies every component it was configured with (set_attributes together '
+                     'with a context extension, ...)', 1)
+    _delta_components_applied(ctx, repo)
+
     return 'other', (
         'Decides the places where the mode of a node is determined: the math parser\'s contents '
         'state and recorded fields, the walker events, the per-argument / per-body deltas, the '
@@ -711,3 +717,48 @@ def _delta_chain_threading(ctx, repo):
                        construct='%s: chained deltas' % q)
     if n == 0:
         ctx.unknown('R10j', dm, None, 'no loop applying a sequence of deltas found', construct='chained deltas')
+
+
+
+def _delta_components_applied(ctx, repo):
+    """R10k: a delta object applies every component it was configured with: on each returning path
+    of get_updated_parsing_state() on which a component attribute (tested by truthiness in the
+    method) is set, the returned state is computed from that attribute"""
+    n = 0
+    for modname in ('pylatexenc.latexnodes._parsingstatedelta', 'pylatexenc.macrospec._latexcontextdb'):
+        mod = repo.mod(modname)
+        for q, f in sorted(mod.functions.items()):
+            if not q.endswith('.get_updated_parsing_state'):
+                continue
+            comps = set()
+            for t, _w in gcommon.truthiness_tests(f):
+                x = t.operand if isinstance(t, ast.UnaryOp) and isinstance(t.op, ast.Not) else t
+                if is_self_attr(x):
+                    comps.add(x.attr)
+            if not comps:
+                continue
+            try:
+                rcs = [c for c in symex.Walker(want_returns=True, pure=('dict',)).run(f) if c.kind == 'return']
+            except symex.TooManyPaths:
+                ctx.unknown('R10k', mod, f, 'too many paths', construct=q + ': components applied')
+                continue
+            n += 1
+            bad = None
+            for c in rcs:
+                facts = symex.facts_of(c.conds, c.env)
+                full = unparse(symex.expand(c.sub, c.env, depth=5))
+                for a in sorted(comps):
+                    if ('self.' + a, True) in facts and ('self.' + a) not in full and bad is None:
+                        bad = (c, a, full)
+            ctx.decide('R10k', bad is None, mod, bad[0].node if bad else f,
+                       '%s: every configured component (%s) reaches the returned state on the paths where it is set'
+                       % (q, ', '.join(sorted(comps))),
+                       '%s: on the path [%s] self.%s is set but the returned state %s is not computed from it: the '
+                       'component is silently dropped (a math/text switch given together with a context extension is '
+                       'lost, and the body is recorded in the wrong mode)'
+                       % (q, ' & '.join(bad[0].cond_src())[-120:] if bad else '', bad[1] if bad else '',
+                          short(ast.parse(bad[2], mode='eval').body, 70) if bad else ''),
+                       construct=q + ': components applied')
+    if n == 0:
+        ctx.unknown('R10k', repo.mod('pylatexenc.latexnodes._parsingstatedelta'), None,
+                    'no delta with optional components found', construct='components applied')
